@@ -1,5 +1,5 @@
 CONSTANTS MaxIn = 2  MaxOut = 2
           CoinSet = {"LTC"}
-          ScenarioIds = {1, 3, 5, 8, 11, 12}
+          ScenarioIds = {1, 3, 5, 8, 11, 12, 13, 14}  FewHtIds = {13, 14}
 SPECIFICATION Spec
 CHECK_DEADLOCK FALSE
